@@ -295,3 +295,32 @@ def record_default(eng, module, cname, field):
         base = cls.bases[0] if cls.bases else None
         cls = module.classes.get(base.id) if isinstance(base, ast.Name) else None
     return None
+
+
+def sym_cstruct(eng, st, name, ty):
+    """symbolic cstruct instance "cstruct:<module>:<instance>:<Struct>": every field at its full width"""
+    from . import cstructmodel as cm
+    _, modname, inst, sname = ty.split(":")
+    module = eng.repo.module(modname)
+    defs = cm.module_cdefs(eng, module, inst)
+    fields = {}
+    for (f, fty, fc) in defs.structs[sname]:
+        base = defs.enums[fty][0] if fty in defs.enums else fty
+        if fty == "char" and fc is not None:
+            v, facts = sym_value(f"{name}_{f}", "bytes")
+            st.assume(*facts)
+            n = cm.fixed_count(defs, fc)
+            if n is not None:
+                st.assume(IS.len(v.t) == n)
+            fields[f] = v
+        elif base in cm.PRIMS and fc is None:
+            size, signed = cm.PRIMS[base]
+            t = fresh(f"{name}_{f}", I)
+            st.assume(t >= (-(256 ** size // 2) if signed else 0), t < (256 ** size // 2 if signed else 256 ** size))
+            fields[f] = cm.enum_value(fty, inst, module, t) if fty in defs.enums else VInt(t)
+        else:
+            raise Unsupported(f"symbolic cstruct field {f}: {fty}[{fc}]")
+    ident = f"cstruct!{sname}!{name}!{next(_ids)}"
+    st.heap[ident] = dict({"__kind__": "obj", "__class__": f"cstruct:{sname}", "__module__": modname,
+                           "__cdefs__": (modname, inst)}, **fields)
+    return VRef(ident, f"cstruct:{sname}")
